@@ -199,6 +199,68 @@ def line_splitting(P, R, rule='C08.TAB.2'):
     R.floor(rule, 1)
 
 
+def lookup_results_checked(P, R, rule='C08.NULL.2'):
+    """A record obtained by a lookup (set_find) may be absent - a module loaded or configured after the client was
+    announced has none - so every use of the result is dominated by its null test."""
+    n = 0
+    for f in P.fns.values():
+        if not f.unit.startswith('modules/'):
+            continue
+        found = set()
+        for s in f.sites():
+            val = s.ev.get('rhs') if s.ev['k'] == 'store' else s.ev.get('init') if s.ev['k'] == 'decl' else None
+            tgt = s.ev['lhs']['name'] if s.ev['k'] == 'store' and is_var(s.ev.get('lhs')) else s.ev.get('var') if s.ev['k'] == 'decl' else None
+            if tgt and isinstance(val, dict) and val.get('k') == 'callref' and val.get('callee') == 'set_find':
+                found.add(tgt)
+        for v in sorted(found):
+            if not all((d.ev.get('rhs') if d.ev['k'] == 'store' else d.ev.get('init') or {}) is None or ((d.ev.get('rhs') if d.ev['k'] == 'store' else d.ev.get('init')) or {}).get('callee') == 'set_find' for d in f.local_defs(v)):
+                continue
+            uses = []
+            for s in f.sites():
+                for ex in rules.event_exprs(s.ev):
+                    for x in walk(ex):
+                        if (x.get('k') == 'mem' and x.get('arrow') and is_var(x.get('base'), v)) or (x.get('k') == 'un' and x.get('op') == '*' and is_var(x.get('e'), v)):
+                            uses.append(s)
+            for bid, blk in f.blocks.items():
+                c = (blk.get('term') or {}).get('cond')
+                if isinstance(c, dict) and any(x.get('k') == 'mem' and x.get('arrow') and is_var(x.get('base'), v) for x in walk(c)):
+                    uses.append(('term', bid))
+            bad = None
+            for u in uses:
+                bid = u.bid if hasattr(u, 'bid') else u[1]
+                if not any(is_var(g[0], v) and g[1] == '!=' and const_of(g[2]) == 0 for g in f.guards(bid)):
+                    bad = u
+                    break
+            if uses:
+                n += 1
+                R.ob(rule, bad is None, (bad if hasattr(bad, 'bid') else f) if bad is not None else f, '%s: the record %s found by lookup is used only after it was tested non-null' % (f.name, v), key='lookup-null:%s:%s' % (f.name, v))
+    R.floor(rule, 3)
+
+
+def stats_are_write_only(P, R, rule='C08.WMC.3'):
+    """Statistics describe what happened, they do not decide what happens: no branch of the decision modules reads a
+    statistics counter (they drift - a re-announced id counts an allocation without a release - so a decision taken
+    on them differs from one taken on the live table)."""
+    n = 0
+    bad = []
+    for f in P.fns.values():
+        if not f.unit.startswith('modules/'):
+            continue
+        for bid, blk in f.blocks.items():
+            c = (blk.get('term') or {}).get('cond')
+            if not isinstance(c, dict):
+                continue
+            for x in walk(c):
+                rv = x if x.get('k') == 'var' else None
+                if rv is not None and rv.get('name') == 'stats' and rv.get('sc') in ('file_static', 'global'):
+                    bad.append((f, blk))
+        n += 1
+    for f, blk in bad:
+        R.ob(rule, False, P.relloc((blk.get('term') or {}).get('loc', '?')), '%s branches on a statistics counter (%s)' % (f.name, sx((blk.get('term') or {}).get('cond'))), key='stats-branch:%s' % f.name)
+        R.obligations[-1]['function'] = f.name
+    R.ob(rule, True, reader(P), 'scanned the branch conditions of %d module functions for reads of the statistics counters: %d found' % (n, len(bad)), key='scan', nontrivial=False)
+
+
 MIN_ARGC = {'C': 5, 'N': 2, 'P': 2, 'U': 3, 'n': 2, 'E': 3, 'M': 3, 'X': 4, 'x': 4, '?': 2}
 
 
@@ -523,6 +585,8 @@ def run(P, R, tier):
     line_buffer_writes(P, R)
     drains_buffer(P, R)
     line_splitting(P, R)
+    lookup_results_checked(P, R)
+    stats_are_write_only(P, R)
     # a timer that outlives its request fires on freed memory: the timer lives exactly as long as the request
     from . import c10
     cl = c10.cleanup_fn(P, Remap(R, {'C10.MPT.1': 'C08.TMR.1', 'C10.WIRE.1': 'C08.TMR.1'}))
